@@ -12,7 +12,7 @@
        in order and memory is unchanged,
      - exact forms: success iff the full count was transferred (judged when count > 0 or the start
        address lies inside the target; a hard error takes precedence); up-to forms: Ok(n) has
-       n = bytes moved. *)
+       n = bytes moved; no form moves more than the requested count. *)
 From VM Require Import Prelude.MachInt Prelude.Outcome Prelude.Tok Prelude.C1314List Impl.Io Impl.IoGuest.
 
 Inductive target := TSlice (soff slen : N) | TRegion (r : region) | TGuest (L : list region).
@@ -88,4 +88,5 @@ Definition ok_C14 (c : case14) (o : obs14) : bool :=
         negb (o_rk o =? 0)
         && (if hard || negb judged then true else Bool.eqb (o_rk o =? 1) (o_moved o =? c_count c))
       else
-        negb (o_rk o =? 1) && (if o_rk o =? 0 then o_a o =? o_moved o else true)).
+        negb (o_rk o =? 1) && (if o_rk o =? 0 then o_a o =? o_moved o else true))
+  && (o_moved o <=? c_count c).                     (* never more than the requested count *)
